@@ -217,6 +217,11 @@ func runWriters(c E1Case, prop string) (out core.Outcome) {
 		return
 	}
 	p, v := oracleStream(r, prop)
+	if ov := r.tr.WriteOverlap(); v == nil && ov != "" && prop == "C01" {
+		// a transport is not safe for concurrent use (the shipped ones are bufio writers over a connection): two
+		// write-side calls in progress at once can duplicate, drop or reorder bytes on a real transport
+		v = core.Viol("C01/transport-write-calls-overlap", "%s; on a real (bufio-based) transport the payloads would not stay intact", ov)
+	}
 	if v == nil && prop != "C01" {
 		v = oracleComplete(r, p, prop)
 	}
